@@ -3,7 +3,7 @@
 Marks known findings as fixed by /repo HEAD and stores the regression scenario."""
 import json, os, shutil, sys
 ids, prop, src, name, what = sys.argv[1].split(','), sys.argv[2], sys.argv[3], sys.argv[4], sys.argv[5]
-h = os.popen('git -C /repo log --format=%h -1').read().strip()
+h = os.environ.get('COMMIT') or os.popen('git -C /repo log --format=%h -1').read().strip()
 reg = None
 if src != '-':
     os.makedirs('/verif/regress/%s' % prop, exist_ok=True)
